@@ -312,12 +312,26 @@ func RunBatch(cfg BatchConfig) int {
 		os.WriteFile(strings.TrimSuffix(replayPath, ".json")+".full.json", full.JSON(), 0o644)
 		os.WriteFile(replayPath, min.JSON(), 0o644)
 		// the replay must reproduce in a fresh process
-		cmd := exec.Command(cfg.SelfExe, "-replay", replayPath, "-prop", id)
-		cmd.Env = append(os.Environ(), "GOMAXPROCS=1")
-		out, _ := cmd.CombinedOutput()
-		if cmd.ProcessState == nil || cmd.ProcessState.ExitCode() != 1 || !strings.Contains(string(out), "REPRODUCED") {
-			fmt.Printf("HARNESS-FAULT property=%s: violation %s (index %d) does not replay from %s:\n%s\n", id, firstUnknown.V.Class, firstUnknown.Index, replayPath, tail(string(out), 1500))
-			return 2
+		attempts, tolerateFlaky := 1, false
+		if np, ok := p.(NondeterminismProperty); ok {
+			attempts, tolerateFlaky = np.ReplayAttempts(), true
+		}
+		reproduced := false
+		var out []byte
+		for a := 0; a < attempts && !reproduced; a++ {
+			cmd := exec.Command(cfg.SelfExe, "-replay", replayPath, "-prop", id)
+			cmd.Env = append(os.Environ(), "GOMAXPROCS=1")
+			out, _ = cmd.CombinedOutput()
+			reproduced = cmd.ProcessState != nil && cmd.ProcessState.ExitCode() == 1 && strings.Contains(string(out), "REPRODUCED")
+		}
+		if !reproduced {
+			if !tolerateFlaky {
+				fmt.Printf("HARNESS-FAULT property=%s: violation %s (index %d) does not replay from %s:\n%s\n", id, firstUnknown.V.Class, firstUnknown.Index, replayPath, tail(string(out), 1500))
+				return 2
+			}
+			// the property is about run-to-run differences: the observed difference is the violation even
+			// when a particular replay happens to agree with itself
+			fmt.Printf("note: the difference was observed in the batch but %d replays of %s agreed with themselves: the behaviour is nondeterministic\n", attempts, replayPath)
 		}
 		fmt.Printf("violation class=%s index=%d at=%d: %s\n", min.Expect.Class, firstUnknown.Index, min.Expect.At, min.Expect.Detail)
 		var others []string
